@@ -129,7 +129,7 @@ pub fn base_weights(prop: &str) -> Vec<u32> {
             set(&[(Rekey, 4), (EncryptRepeat, 6), (Reload, 2), (Recaps, 2), (Keygen, 5)]);
         }
         "C17" => {
-            set(&[(Keygen, 6), (Publish, 1), (Deliver, 6), (Encrypt, 2), (Read, 2), (RequestRefresh, 6), (Rekey, 2), (Reload, 3), (Backup, 2), (Restore, 2)]);
+            set(&[(Keygen, 6), (Publish, 1), (Deliver, 6), (Encrypt, 2), (Read, 2), (RequestRefresh, 6), (Rekey, 2), (Reload, 3), (Backup, 2), (Restore, 2), (ForgedRefresh, 2)]);
         }
         "C07" => {
             set(stat);
@@ -759,6 +759,10 @@ impl Gen {
     }
 
     pub fn usk_op(&mut self, rng: &mut Rng, w: &World, user: usize) -> UskOp {
+        if self.prop == "C17" && rng.pct(70) {
+            // bytes 1..65 (66 with P-256 points following) hold the identifier markers
+            return UskOp::FlipBit { pos: 1 + rng.below(64), bit: rng.below(8) as u8 };
+        }
         let n_rights = w.users[user].usk.as_ref().map(|(_, m)| m.rights.len()).unwrap_or(1).max(1);
         let other = rng.below(w.users.len());
         match rng.below(26) {
